@@ -40,11 +40,13 @@ ASSUMPTIONS = [
     'case A oracle uses the position cells of the same result (a WHERE/FROM bug cannot raise a C12 alarm); case B aligns returned rows to the all-postings sequence by the scan index delivered by the harness function verif_rowno',
     'Inventory arithmetic (add_position, reduce) is beancount core and trusted',
 ]
-PROBES = ['predecessor_statement', 'predecessor_scan_died', 'long_ledger_over_128_postings', 'ordered_output_resorted', 'same_transaction_object_twice', 'balance_only_as_later_operand', 'aggregate_over_balance_checked', 'equal_consecutive_postings', 'scan_between_balance_refs', 'balance_scan_between_balance_refs', 'nested_scan_died_halfway', 'other_connection_scan',
+PROBES = ['conditionally_evaluated_reference', 'predecessor_statement', 'predecessor_scan_died', 'long_ledger_over_128_postings', 'ordered_output_resorted', 'same_transaction_object_twice', 'balance_only_as_later_operand', 'aggregate_over_balance_checked', 'equal_consecutive_postings', 'scan_between_balance_refs', 'balance_scan_between_balance_refs', 'nested_scan_died_halfway', 'other_connection_scan',
           'where_consults_balance', 'from_clause_subject', 'lots_reduced_in_selection', 'in_subquery_touching_balance',
           'three_refs', 'nested_result_checked', 'rider_checked']
 
-REFS = ['balance', 'units(balance)', 'cost(balance)', 'balance', 'units(balance)', 'cost(balance)', 'only(cost_currency, balance)']
+# the skipped rows are the ones held at cost, so the visible part of the balance must be the commodity held at cost
+COND_REFS = ['coalesce(cost_number, number(only("HOOL", balance)))', 'coalesce(cost_number, number(only("VTI", balance)))']
+REFS = ['balance', 'units(balance)', 'cost(balance)', 'balance', 'units(balance)', 'cost(balance)', 'only(cost_currency, balance)'] + COND_REFS
 FROMS = [None, None, None, 'year = 2020', 'year >= 2020 OPEN ON 2020-02-01', 'CLOSE ON 2020-03-01',
          'date >= 2020-01-10 CLEAR', 'OPEN ON 2020-01-20 CLOSE ON 2020-04-01']
 FILTERS = [None, None, 'account ~ "Equity"', 'account ~ "Assets"', 'number > 0', 'currency = "USD"', 'account ~ "Broker|Bank"',
@@ -111,10 +113,17 @@ def generate(rng, tier, run):
     if rng.random() < 0.3:
         targets.append(f'{interferer()} AS ft')
     conds = []
+    cond_where = False
     if caseB:
         pre = rng.random() < 0.4
         if pre:
             conds.append(f'({interferer()}) IS NOT NULL') if rng.random() < 0.5 else conds.append('number IS NOT NULL')
+        if flt and rng.random() < 0.5:
+            # the condition consults balance only on some rows (AND stops at the first false conjunct): it is
+            # still "the sum over all postings scanned so far"
+            conds.append(flt)
+            flt = None
+            cond_where = True
         conds.append('NOT empty(balance)')
         if rng.random() < 0.4:
             kk = k
@@ -159,6 +168,7 @@ def generate(rng, tier, run):
         'world': {'ledger': ledger, 'other': other},
         'subject': {'text': text, 'refs': refs, 'caseB': caseB, 'from': frm, 'filter': flt,
                     'where': ' AND '.join(conds) if conds else None, 'order': order,
+                    'conditional': bool(cond_where or any(r_ in COND_REFS for r_ in refs)),
                     'real_parse': rng.random() < 0.05},
         'nested': nested,
         'riders': rng.random() < 0.5,
@@ -182,6 +192,11 @@ def same(x, y):
 
 
 def wrap(inv, ref, pos=None):
+    if ref in COND_REFS:
+        # a reference the language evaluates conditionally: the balance of the row is what it is all the same
+        if pos is not None and pos.cost is not None:
+            return pos.cost.number
+        return inv.get_currency_units('HOOL' if 'HOOL' in ref else 'VTI').number
     if ref == 'only(cost_currency, balance)':
         # NULL where the first operand is NULL; the running balance advances on every selected row all the same
         if pos is None or pos.cost is None:
@@ -378,6 +393,8 @@ def execute(case, keep_log=False):
                 S.probes['from_clause_subject'] += 1
             if len(sub['refs']) >= 3:
                 S.probes['three_refs'] += 1
+            if sub.get('conditional'):
+                S.probes['conditionally_evaluated_reference'] += 1
             if len(W['ledger']['dirs']) >= 60:
                 S.probes['long_ledger_over_128_postings'] += 1
             if W['ledger'].get('dupobj'):
@@ -406,7 +423,8 @@ def execute(case, keep_log=False):
                 if p['kind'] == 'unaligned':
                     stats['unaligned'] = 1
                 else:
-                    violation(p['kind'], 'subject', p, ':caseB' if sub['caseB'] else ':caseA')
+                    violation(p['kind'], 'subject', p, (':caseB' if sub['caseB'] else ':caseA') +
+                              (':conditional-reference' if sub.get('conditional') else ''))
             # last balance == sum(position) of the same selection (case A)
             # Only when the subject has no subquery: a subquery naming a table replaces the
             # FROM-transformed table of the enclosing query at compile time (a deterministic
